@@ -50,6 +50,21 @@ def getRexPrefix (s : Instr) (m r : Operand) : Instr × Nat :=
 /-- does the "sib with no base" rule of get_reg apply to this operand? -/
 def noBaseFires (m : Operand) : Bool := m.reg == c_reg_none && m.index != c_reg_none
 
+/-- the index became the base: SIB 0x24 for rsp/r12, mod 01 and a zero byte for rbp/r13 -/
+def baseFixups (s : Instr) (m : Operand) : Instr :=
+  let s := if (m.reg &&& c_VALUE_MASK) == c_spl && m.index == c_reg_none then { s with isSibConst := true } else s
+  let regOpd := m.reg &&& c_MODE_MASK
+  if regOpd > c_ext16 && regOpd < c_mmx64 && s.memOffset == 0 && (m.reg &&& c_VALUE_MASK) == c_bpl
+  then { s with modDisp := c_MOD8, zeroByte := true } else s
+
+/-- without a base the displacement is 32 bits wide: a one-byte displacement is sign extended
+    (`(uint32_t)(int8_t)mem_offset`) and mod becomes 00 -/
+def noBaseDisp (s : Instr) : Instr :=
+  let off := if s.modDisp == c_MOD8
+             then (if s.memOffset % 256 ≥ 128 then s.memOffset % 256 + 0xffffff00 else s.memOffset % 256)
+             else s.memOffset
+  { s with memOffset := off, modDisp := 0 }
+
 /-- first part of `get_reg`: a memory operand with index but without base register
     ("sib with no base") is rewritten, depending on NASM_SIB_NO_BASE and the scale -/
 def noBaseAdjust (opt : Nat) (s : Instr) (m : Operand) : Instr × Operand :=
@@ -60,7 +75,7 @@ def noBaseAdjust (opt : Nat) (s : Instr) (m : Operand) : Instr × Operand :=
         else if s.sibDisp == c_SIB2 then ({ s with sibDisp := c_SIB }, { m with reg := m.index })
         else ({ s with noBase := true }, { m with reg := c_NO_BASE })
       else ({ s with noBase := true }, { m with reg := c_NO_BASE })
-    if m.reg == c_NO_BASE then ({ s with modDisp := 0 }, m) else (s, m)
+    if m.reg == c_NO_BASE then (noBaseDisp s, m) else (baseFixups s m, m)
   else (s, m)
 
 /-- second part of `get_reg`: ModRM (and SIB) from the adjusted operand -/
